@@ -8,7 +8,7 @@
 From Coq Require Import ZArith Bool List.
 From ArmV Require Import Lib.PyZ Lib.Monad Lib.Machine Spec.Pseudocode Spec.Arch Spec.MachineView Spec.Branches Spec.StepFrame
   Spec.OperandSpec Spec.DPSem Proofs.StateLemmas Proofs.CondProofs Proofs.GuardProofs Proofs.DPLemmas Proofs.StepProofs Proofs.StepDP
-  Proofs.StepInstances Proofs.StepInstancesArm Proofs.StepInstancesThumb Proofs.DPRange Proofs.StepDPReg Proofs.StepInstancesArmReg Proofs.StepInstancesCmp Proofs.StepInstancesArmRsr Proofs.StepInstancesThumbReg Proofs.StepInstancesMov Proofs.StepInstancesThumb2 Proofs.StepInstancesShift Proofs.StepInstancesThumb2Reg Proofs.StepInstancesCmpReg Proofs.StepInstancesCmpT2 Proofs.StepInstancesCmpRsr Proofs.MemProofs Proofs.StepFetch Proofs.StepClosed Proofs.StepInstancesExample.
+  Proofs.StepInstances Proofs.StepInstancesArm Proofs.StepInstancesThumb Proofs.DPRange Proofs.StepDPReg Proofs.StepInstancesArmReg Proofs.StepInstancesCmp Proofs.StepInstancesArmRsr Proofs.StepInstancesThumbReg Proofs.StepInstancesMov Proofs.StepInstancesThumb2 Proofs.StepInstancesShift Proofs.StepInstancesThumb2Reg Proofs.StepInstancesCmpReg Proofs.StepInstancesCmpT2 Proofs.StepInstancesCmpRsr Proofs.StepInstancesMovReg Proofs.MemProofs Proofs.StepFetch Proofs.StepClosed Proofs.StepInstancesExample.
 From Gen Require Import enums opsyn core exec conc decoders step.
 Import ListNotations.
 Open Scope Z_scope.
@@ -1102,6 +1102,30 @@ Theorem C01_cmnRegisterShiftedRegisterA1_step cfg s w s1 :
     (forall k, 0 <= k -> k <> pc_index -> getl (R (AdvancePC (it_step_after s1 s2))) k = getl (R s1) k).
 Proof. exact (cmnRegisterShiftedRegisterA1_step cfg s w s1). Qed.
 Print Assumptions C01_cmnRegisterShiftedRegisterA1_step.
+
+(* MOV{S}<c> Rd, Rm and RRX{S}<c> Rd, Rm (ARM A1) *)
+Theorem C01_movRegisterArmA1_step cfg s w s1 :
+  ArmV6_fetch_instruction cfg s = Ok w s1 ->
+  0 <= w < 2 ^ 32 -> is_mov_reg_a1 0 w -> iset_of s1 = 0 -> ictx cfg s1 -> cond_holds s1 ->
+  let d := bits w 15 12 in let m := bits w 3 0 in
+  let op := (code_MovRegisterArm, [w; bit w 20; m; d]) in
+  exists s2,
+    dp_sem cfg MOV (bit w 20) (Some d) 0 (Op2Plain m) (begin_instr s1 op) = Ok tt s2 /\
+    ArmV6_emulate_cycle cfg s = Ok tt (AdvancePC (it_step_after s1 s2)) /\
+    pc_of (AdvancePC (it_step_after s1 s2)) = add32 (pc_of s1) (opcode_len s1 / 8).
+Proof. exact (movRegisterArmA1_step cfg s w s1). Qed.
+Print Assumptions C01_movRegisterArmA1_step.
+Theorem C01_rrxA1_step cfg s w s1 :
+  ArmV6_fetch_instruction cfg s = Ok w s1 ->
+  0 <= w < 2 ^ 32 -> is_mov_reg_a1 3 w -> iset_of s1 = 0 -> ictx cfg s1 -> cond_holds s1 ->
+  let d := bits w 15 12 in let m := bits w 3 0 in
+  let op := (code_Rrx, [w; bit w 20; m; d]) in
+  exists s2,
+    dp_sem cfg MOV (bit w 20) (Some d) 0 (Op2Reg m SRType_RRX 1) (begin_instr s1 op) = Ok tt s2 /\
+    ArmV6_emulate_cycle cfg s = Ok tt (AdvancePC (it_step_after s1 s2)) /\
+    pc_of (AdvancePC (it_step_after s1 s2)) = add32 (pc_of s1) (opcode_len s1 / 8).
+Proof. exact (rrxA1_step cfg s w s1). Qed.
+Print Assumptions C01_rrxA1_step.
 
 (* no hypothesis left about the stages of the cycle: ARM state, flat memory map (PMSA, MPU off), word-aligned PC; the instruction is
    whatever word the memory holds at the PC (Props/C13step.v discharges the fetch) *)
